@@ -532,8 +532,15 @@ class FromPandasDivisions(FromPandas):
         _division_info_cache = self.frame._division_info
         if key not in _division_info_cache:
             data = self.frame._data
+            if len(data) and (key[0] > data.index[0] or key[-1] < data.index[-1]):
+                raise ValueError(
+                    f"the divisions {key[0]!r} .. {key[-1]!r} must span the (sorted) "
+                    f"index {data.index[0]!r} .. {data.index[-1]!r} of the data"
+                )
             if data.index.is_unique:
                 indexer = data.index.get_indexer(key, method="bfill")
+                # no label at or after a division: its partitions are empty
+                indexer[indexer == -1] = len(data)
             else:
                 # get_indexer for doesn't support method
                 indexer = np.searchsorted(data.index.values, key, side="left")
